@@ -43,7 +43,8 @@ type RunOpts struct {
 }
 
 func defaultOracles(e *Env) {
-	e.Oracles = []Oracle{newInvOracle()}
+	e.T = newTrack()
+	e.Oracles = []Oracle{trackOracle{}, newInvOracle(), newMoneyOracle(), newAuthOracle(), newLifeOracle()}
 }
 
 // Generate runs the adaptive generator on the observer and returns the result + trace.
